@@ -33,6 +33,10 @@ var c05classes = []c05class{
 	{"tmpfs", "tmpfs", true}, {"proc-ro", "proc", false}, {"proc-rw", "proc", true}, {"nested-bind-ro-dir", "dir", false},
 	{"missing-source-filtered", "none", false}, {"bind-ro-dir-from-nosuid-noexec-mount", "dir", false}, {"hand-built-ro-bind", "dir", false},
 	{"hand-built-ro-bind-file", "file", false},
+	// a read-only file bind whose target lies inside a writable directory bind, where an earlier program left a symbolic
+	// link of that name: either the table is refused, or the target is that read-only mount (never the program's link)
+	{"bind-ro-file-onto-planted-symlink-in-rw-bind", "file", false},
+	{"bind-ro-dir-onto-planted-symlink-in-rw-bind", "dir", false},
 }
 
 type fsReport struct {
@@ -63,6 +67,7 @@ func rawList(m map[string]json.RawMessage, k string) []string {
 }
 
 type c05entry struct {
+	also   map[string]string // further mounts this entry brings along (path → ro/rw)
 	class  c05class
 	target string // relative target in the mount table
 	path   string // absolute path inside the sandbox
@@ -153,6 +158,7 @@ func c05run(x *mc.X, impl string, classes []c05class) {
 	b := mount.NewBuilder().WithBind(binDir(), "probe", true).WithTmpfs("w", "")
 	var entries []c05entry
 	var names []string
+	plantedLink := false
 	for i, c := range classes {
 		names = append(names, c.name)
 		e := c05entry{class: c, target: fmt.Sprintf("t%d", i)}
@@ -189,6 +195,28 @@ func c05run(x *mc.X, impl string, classes []c05class) {
 		case "hand-built-ro-bind-file":
 			os.WriteFile(src, []byte("content"), 0644)
 			b.WithMount(mount.Mount{Source: src, Target: e.target, Flags: syscall.MS_BIND | syscall.MS_RDONLY})
+		case "bind-ro-file-onto-planted-symlink-in-rw-bind":
+			dir := src + ".dir"
+			mkSourceDir(dir)
+			os.WriteFile(filepath.Join(dir, "other"), []byte("program's own file"), 0666)
+			os.Symlink("other", filepath.Join(dir, "cfg"))
+			os.WriteFile(src, []byte("content"), 0644)
+			b.WithBind(dir, e.target, false)
+			b.WithBind(src, e.target+"/cfg", true)
+			e.also = map[string]string{"/" + e.target: "rw"}
+			e.target += "/cfg"
+			plantedLink = true
+		case "bind-ro-dir-onto-planted-symlink-in-rw-bind":
+			dir := src + ".dir"
+			mkSourceDir(dir)
+			os.MkdirAll(filepath.Join(dir, "otherdir"), 0777)
+			os.Symlink("otherdir", filepath.Join(dir, "cfgd"))
+			mkSourceDir(src)
+			b.WithBind(dir, e.target, false)
+			b.WithBind(src, e.target+"/cfgd", true)
+			e.also = map[string]string{"/" + e.target: "rw"}
+			e.target += "/cfgd"
+			plantedLink = true
 		}
 		e.source = src
 		e.path = "/" + e.target
@@ -265,6 +293,13 @@ func c05run(x *mc.X, impl string, classes []c05class) {
 				cb.MaskPaths = []string{"/mlnk/maskme", "/mlnk/sub"}
 			}
 		})
+		if err != nil && plantedLink && !strings.Contains(err.Error(), "i/o timeout") {
+			pw.Close()
+			x.Note("refused", err.Error())
+			x.Distinct(fmt.Sprint(impl, names, "refused"))
+			x.Outcome(impl + ":table-with-planted-link-refused")
+			return
+		}
 		if err != nil {
 			pw.Close()
 			x.Failf("C05/container/build-failed/"+strings.Join(names, "+"), "table %v: %v", names, err)
@@ -278,6 +313,13 @@ func c05run(x *mc.X, impl string, classes []c05class) {
 	}
 	pw.Close()
 	line := <-outCh
+	if plantedLink && res.Status == runner.StatusRunnerError && strings.Contains(res.Error, "mount") {
+		// the launcher refused to mount onto the planted link: acceptable (the alternative is the declared mount in place)
+		x.Note("refused", res.Error)
+		x.Distinct(fmt.Sprint(impl, names, "refused"))
+		x.Outcome(impl + ":table-with-planted-link-refused")
+		return
+	}
 	var rep fsReport
 	if res.Status != runner.StatusNormal || json.Unmarshal(line, &rep) != nil {
 		x.Failf("C05/"+impl+"/probe-failed/"+strings.Join(names, "+"), "table %v: %v %s; probe said %.200q", names, res.Status, res.Error, string(line))
@@ -351,6 +393,9 @@ func c05run(x *mc.X, impl string, classes []c05class) {
 		writeOps := []string{"create", "mkdir", "open_w", "open_trunc", "chmod", "rename", "unlink"}
 		if c.kind == "file" {
 			writeOps = []string{"open_w", "append", "chmod"}
+			if !c.writable {
+				writeOps = append(writeOps, "unlink") // the target of a read-only file mount cannot be taken away either
+			}
 		}
 		if c.kind == "tmpfs" {
 			writeOps = []string{"create", "mkdir"} // starts empty
@@ -443,6 +488,9 @@ func c05run(x *mc.X, impl string, classes []c05class) {
 			continue
 		}
 		wantMounts[e.path] = map[bool]string{true: "rw", false: "ro"}[e.class.writable]
+		for p, f := range e.also {
+			wantMounts[p] = f
+		}
 	}
 	if maskFile != "" {
 		wantMounts[maskFile] = ""
